@@ -176,7 +176,7 @@ def resample_part(run, np, dsp, T):
                 if len(tnew) != outlen or tnew[0] != 3.0 or o2.tobytes() != out.tobytes():
                     run.violation("resample(t=...): %d positions for %d samples / first position moved / data changed" % (len(tnew), outlen), {"case": c}, tags)
             if len(f_) != firlen:
-                run.violation("resample: FIR length %d, documented 2 pts max(p, q)/gcd + 1 = %d" % (len(f_), firlen), {"case": c}, tags)
+                run.deviation("PsdDsp (FIR length)", "resample: FIR length %d, documented 2 pts max(p, q)/gcd + 1 = %d" % (len(f_), firlen), {"case": c})
             o = np.moveaxis(out, axis, -1)
             d = np.moveaxis(data, axis, -1)
             sc = np.abs(d - d.mean(axis=-1, keepdims=True)).max() + 1e-300
@@ -289,7 +289,7 @@ def fixtime_part(run, np, dsp):
                     if arr.shape != (L, 2) or arr[:, 0].tobytes() != tn.tobytes() or arr[:, 1].tobytes() != dn.tobytes():
                         run.violation("fixtime: 2-column ndarray input gives a different result than (time, data)", {"ticks": tk}, tags)
                     if list(info.tp) != [x - 1 for x in tp]:
-                        run.violation("fixtime: turning points %s, expected %s" % (list(info.tp), [x - 1 for x in tp]), {"ticks": tk}, dict(tags, clause="tp"))
+                        run.deviation("PsdDsp (fixtime info)", "fixtime: turning points %s, the spec's drop-out rule gives %s" % (list(info.tp), [x - 1 for x in tp]), {"ticks": tk})
                 # unsorted input (distinct times) is sorted; NaN / inf samples are drop-outs and leave no trace
                 if len(set(tk)) == len(tk) and ci % 3 == 0:
                     perm = rng.permutation(len(tk))
@@ -318,7 +318,8 @@ def fixtime_part(run, np, dsp):
                 continue
             # the two implementations of the nearest / previous helpers (vectorised in use here; numba bodies from the tree)
             tnew = told[0] + float(shift) + np.arange(L) * dt
-            variants = [("vectorised", dsp._find_closest_times, dsp._find_closest_previous_times)]
+            # helper names are private: if they are renamed the public clauses above still stand and this part is skipped
+            variants = [("vectorised", getattr(dsp, "_find_closest_times", None), getattr(dsp, "_find_closest_previous_times", None))]
             if nb:
                 variants.append(("numba-body", nb.get("_find_closest_times"), nb.get("_find_closest_previous_times")))
             for vname, fct, fpt in variants:
